@@ -1234,8 +1234,32 @@ func handlerHistory(e *Env) {
 		isFree[f] = true
 	}
 	s.c.HandleFunc(client.DISCONNECTED, func(*client.Conn, *client.Line) { disconnected = true })
+	// the welcome line raises CONNECTED from inside its built-in handler, i.e.
+	// before the line's own foreground and background dispatch have begun: what a
+	// CONNECTED handler registers or removes for "001" is in place by then and
+	// must be honoured by that very line
+	nested := g.Pct(40)
+	var wRuns [4]int
+	if nested {
+		e.S.Count("probe.handlers-changed-between-a-line's-internal-and-user-dispatch")
+		rmA := s.c.HandleFunc("001", func(*client.Conn, *client.Line) { wRuns[0]++ })
+		s.c.HandleFunc("001", func(*client.Conn, *client.Line) { wRuns[1]++ })
+		s.c.HandleFunc(client.CONNECTED, func(c *client.Conn, l *client.Line) {
+			rmA.Remove()
+			c.HandleFunc("001", func(*client.Conn, *client.Line) { wRuns[2]++ })
+			c.HandleBG("001", client.HandlerFunc(func(*client.Conn, *client.Line) { wRuns[3]++ }))
+		})
+	}
 	if !s.connect() {
 		return
+	}
+	if nested {
+		simrt.Settle(time.Second)
+		e.Check()
+		if wRuns != [4]int{0, 1, 1, 1} {
+			e.Violation("ran-after-removal-or-before-registration", "a CONNECTED handler (run by the welcome line's built-in handler, before that line reaches the user's handlers) removed foreground handler A for 001 and registered foreground handler C and background handler D for it; for the welcome line A ran %d times (want 0), the untouched B %d (want 1), C %d (want 1), D %d (want 1)", wRuns[0], wRuns[1], wRuns[2], wRuns[3])
+			return
+		}
 	}
 	// concurrent mutators
 	nMut := g.W(2, 2, 1, 1)
